@@ -9,7 +9,7 @@
    `w_log w` are the IDs recorded in the workspace's log (new CUD rows and argument-tree rows).
 
    The theorems are about the code after the repairs of F12 (adba86208), F41 (2dce4071c), F42 (cf81abbbf), F43
-   (d9932b09c), F44 (ed8e8ed01) and F46 (f867c6b2a); the last section keeps, as lemmas about the model variants selected by explicit
+   (d9932b09c), F44 (ed8e8ed01), F46 (f867c6b2a) and F47 (7734f4cc9); the last section keeps, as lemmas about the model variants selected by explicit
    flags, why each repair was needed.
 
    Hypotheses:
@@ -51,6 +51,9 @@ Lemma explicit_ids_bounded_by_validation : c04_max_record_id = 92233720368547758
 Proof. reflexivity. Qed.
 (* validateObjectIDs checks every RecordID field of a document argument, the plain (AddField) ones too (F46, f867c6b2a) *)
 Lemma argument_recordid_fields_checked : c04_arg_plain_checked = true.
+Proof. reflexivity. Qed.
+(* sendResponse re-encodes the reply of the APIv2 paths with numbers kept digit for digit (F47, 7734f4cc9) *)
+Lemma apiv2_reply_exact : c04_apiv2_reply_exact = true.
 Proof. reflexivity. Qed.
 (* appRecordsType.validEvent refuses a singleton create whenever a record - active or not - sits at the singleton's ID *)
 Lemma singleton_slot_guarded : c04_singleton_slot_guard = true.
@@ -247,6 +250,24 @@ Proof.
     cbn in SA; inversion SA as [[E1 E2]]; congruence ].
 Qed.
 
+(* the mapping a client is told equals the stored substitution on every command path: the reply of the APIv2 paths
+   carries each new ID unchanged, so a command sent through them is judged exactly like one sent through APIv1 *)
+Theorem apiv2_reply_reports_the_stored_ids :
+  (forall x, apiv2_number x = x)
+  /\ forall st ws ev o, agrees_event apiv2_number st ws ev o = agrees_event (fun x => x) st ws ev o.
+Proof.
+  assert (E : forall x, apiv2_number x = x) by (intros x; unfold apiv2_number; rewrite apiv2_reply_exact; reflexivity).
+  split; [exact E|]. intros st ws ev o. exact (agrees_event_ext _ _ st ws ev o E).
+Qed.
+
+(* the old shape (before F47): re-encoded through float64 the reply named other IDs than the stored ones - above 2^53
+   the neighbour that is, or will be, another record's ID; at the generator's value 2^63 one number for every new ID *)
+Lemma apiv2_reply_rounded_through_float64 :
+  f64_round 9007199254741003 = 9007199254741004 /\ f64_round 9007199254741004 = 9007199254741004
+  /\ f64_round 9223372036854775809 = 9223372036854775808 /\ f64_round 9223372036854775810 = 9223372036854775808
+  /\ f64_round 200001 = 200001.
+Proof. vm_compute. repeat split. Qed.
+
 (* ================= 4. the link to the trace checker ================= *)
 (* `model_trace st h` is the trace the model itself produces for h (inputs + its outputs as observations).
    For every bounded history whose explicit IDs lie above the singleton band that trace passes the property oracle `satisfies` that bin/check evaluates on the
@@ -412,6 +433,8 @@ Print Assumptions singleton_created_once.
 Print Assumptions recovery_dominates_log.
 Print Assumptions substitution_consistent.
 Print Assumptions substitution_refuted_for_plain_argument_fields.
+Print Assumptions apiv2_reply_reports_the_stored_ids.
+Print Assumptions apiv2_reply_rounded_through_float64.
 Print Assumptions model_traces_satisfy_the_oracle.
 Print Assumptions substitution_refuted_with_separate_plans.
 Print Assumptions substitution_consistent_with_separate_plans.
